@@ -111,6 +111,11 @@ func (l *Linter) lintDeclareStatement(stmt *ast.DeclareStatement, ctx *context.C
 			Message:  err.Error(),
 		}
 		l.Error(err.Match(DECLARE_STATEMENT_DUPLICATED))
+	} else if l.ignore.IsEnable(UNUSED_VARIABLE) {
+		// The unused variables are reported when the linter leaves the subroutine, the ignore
+		// comments of this statement are gone by then. Mark the variable as used like the
+		// ignored root declarations do.
+		ctx.Get(stmt.Name.Value) // nolint:errcheck
 	}
 
 	// Lint the value expression if present
